@@ -44,20 +44,25 @@ AtomVal(a) == [t |-> "atom", id |-> a]
 AllAtoms  == {AtomVal(Atoms[i].id) : i \in 1..Len(Atoms)}
 CoreAtoms == {AtomVal(Atoms[i].id) : i \in {j \in 1..Len(Atoms) : Atoms[j].core}}
 KeyAtoms  == {AtomVal(Atoms[i].id) : i \in {j \in 1..Len(Atoms) : Atoms[j].key}}
+(* keys of one-entry dicts: any hashable value -- None, numbers, dates, tuples and the strings *)
+(* that spell them ({1: v} and {"1": v} are different values)                                  *)
+Key1Vals  == {AtomVal(Atoms[i].id) : i \in {j \in 1..Len(Atoms) : Atoms[j].key1}}
+               \cup {[t |-> "tuple", items |-> <<AtomVal("i1"), AtomVal("i2")>>],
+                     [t |-> "tuple", items |-> <<>>]}
 SeqsUpTo(S, n) == UNION {[1..k -> S] : k \in 0..n}
 
-Containers(S, K) ==
+Containers(S, K, K1) ==
      {[t |-> tt, items |-> s] : tt \in {"list", "tuple"}, s \in SeqsUpTo(S, 2)}
   \cup {[t |-> "ntuple", items |-> s] : s \in [1..2 -> S]}
-  \cup {[t |-> "dict", items |-> s] : s \in SeqsUpTo(K \X S, 1)}
+  \cup {[t |-> "dict", items |-> s] : s \in SeqsUpTo(K1 \X S, 1)}
   \cup {[t |-> "dict", items |-> <<<<x[1], x[3]>>, <<x[2], x[4]>>>>] :
           x \in {y \in K \X K \X S \X S : y[1] # y[2]}}
   \cup {[t |-> "dc", cls |-> c, items |-> <<<<"a", v1>>, <<"b", v2>>>>] : c \in {"DC1", "DC2"}, v1 \in S, v2 \in S}
 
-Level1 == Containers(CoreAtoms, KeyAtoms)
+Level1 == Containers(CoreAtoms, KeyAtoms, Key1Vals)
 Tiny   == {AtomVal(Atoms[i].id) : i \in {j \in 1..Len(Atoms) : Atoms[j].tiny}}
 Tiny2  == {AtomVal("none"), AtomVal("i0")}
-Level2 == Containers(Tiny \cup Containers(Tiny2, {AtomVal("s_a")}), {})
+Level2 == Containers(Tiny \cup Containers(Tiny2, {AtomVal("s_a")}, {AtomVal("s_a"), AtomVal("i1"), AtomVal("s_1")}), {}, {})
 Universe == AllAtoms \cup Level1 \cup (IF Depth >= 2 THEN Level2 ELSE {})
 
 (* documented identifications hold in Canon, and nothing else is merged *)
